@@ -175,7 +175,28 @@ def correlated(repo, chk):
     lst = app[0].func.value.id if app and isinstance(app[0].func.value, ast.Name) else 'correlated_features'
     tr = [n for n in own_nodes(fn.node) if isinstance(n, ast.Assign) and isinstance(n.targets[0], ast.Name) and n.targets[0].id == lst and n.lineno > lp.end_lineno]
     ok_r = bool(r) and term_of(fn, r[0].value, inline=False) == E(f'numpy.column_stack((X, {lst}))') and len(tr) == 1 and term_of(fn, tr[0].value, inline=False) in (E(f'numpy.transpose({lst})'), E(f'numpy.array({lst}).T'))
-    chk.expect(ok_r, 'C20.3c', 'R15', fn.site(r[0]) if r else fn.site(), ast.unparse(r[0]) if r else '', 'the new features are appended as columns', 'correlated features must be appended to X as columns')
+    if not ok_r:
+        # the same decided on the returned value as one expression (locals substituted in program order, the loop that collects the features summarised)
+        from ..match import run_paths
+        from ..terms import pattern, unify
+        ps = run_paths(fn, None, None, max_forks=3)
+        good = [res for _a, res in (ps or []) if res.unknown is None and res.returned is not None]
+        if good and len(good) == len(ps or []):
+            rts = {term_of(fn, g.returned, inline=False) for g in good}
+            pats = [pattern(m, src, ['L']) for src in ('numpy.column_stack((X, numpy.transpose(L)))', 'numpy.column_stack((X, numpy.array(L).T))', 'numpy.hstack((X, numpy.transpose(L)))', 'numpy.hstack((X, numpy.array(L).T))',
+                                                     'numpy.concatenate((X, numpy.transpose(L)), axis=1)', 'numpy.column_stack((X, numpy.column_stack(L)))', 'numpy.column_stack([X, numpy.transpose(L)])')]
+            if all(any(unify(p_, t_) is not None for p_ in pats) for t_ in rts):
+                ok_r = True
+            else:
+                t_ = sorted(rts, key=repr)[0]
+                chk.expect_term(t_, [pattern(m, 'numpy.column_stack((X, numpy.transpose(numpy.array([f(c) for c in S]))))')], 'C20.3c', 'R15', fn.site(r[0]) if r else fn.site(), show(t_)[:160], '',
+                                f'correlated features must be appended to X as columns (X first, one new column per source column); found {show(t_)[:200]}')
+                ok_r = None
+        else:
+            chk.unsure('C20.3c', 'R15', fn.site(r[0]) if r else fn.site(), ast.unparse(r[0])[:100] if r else '', 'the value returned by generate_correlated could not be evaluated as one expression')
+            ok_r = None
+    if ok_r is not None:
+        chk.expect(ok_r, 'C20.3c', 'R15', fn.site(r[0]) if r else fn.site(), ast.unparse(r[0]) if r else '', 'the new features are appended as columns', 'correlated features must be appended to X as columns')
 
 
 def labels(repo, chk):
